@@ -145,7 +145,8 @@ use regex_syntax::ast::{
 };
 ''',
     items=[
-        RawFile('ast_spec.rs'),
+        RawFile('../u_ast/ast_types.rs'),
+        RawFile('../u_ast/ast_spec.rs'),
         Struct(F_NFA, 'Nfa', derive=[]),
         Raw('''
 // TRUSTED: derived Clone of Nfa
